@@ -58,6 +58,29 @@ def _solve(i, rlimit=None):
 def _solve_fast(i): return _solve(i, FAST_RLIMIT)
 
 
+def _pool_map(fn, idxs, jobs):
+    """Map over a fork-based process pool; a worker that dies (solver crash) costs only its own VCs (reported unknown)."""
+    from concurrent.futures import ProcessPoolExecutor
+    from concurrent.futures.process import BrokenProcessPool
+    out = {}
+    todo = list(idxs)
+    for attempt in range(3):
+        if not todo: break
+        try:
+            with ProcessPoolExecutor(max_workers=min(jobs, len(todo)), mp_context=mp.get_context('fork')) as ex:
+                futs = {i: ex.submit(fn, i) for i in todo}
+                for i, f in futs.items():
+                    try: out[i] = f.result()
+                    except BrokenProcessPool: pass
+                    except Exception as e: out[i] = (i, 'unknown', 0.0, 'worker error: %s' % e)
+        except BrokenProcessPool:
+            pass
+        todo = [i for i in todo if i not in out]
+        jobs = max(1, jobs // 4)
+    for i in todo: out[i] = (i, 'unknown', 0.0, 'solver process crashed')
+    return [out[i] for i in idxs]
+
+
 def discharge(vcs, jobs=None):
     """Sets vc.result ('unsat'|'sat'|'unknown'), vc.time, vc.model on each VC."""
     global _VCS
@@ -67,11 +90,9 @@ def discharge(vcs, jobs=None):
     res = {}; hard = []; t0 = time.time()
     if len(vcs) > 80 and jobs > 1:
         # many VCs: the cheap pass runs in the pool as well (round-robin chunks keep the expensive ones apart)
-        ctx = mp.get_context('fork')
-        with ctx.Pool(jobs) as pool:
-            for r in pool.map(_solve_fast, range(len(vcs)), chunksize=max(1, len(vcs) // (jobs * 6))):
-                if r[1] == 'unknown': hard.append(r[0])
-                res[r[0]] = r
+        for r in _pool_map(_solve_fast, list(range(len(vcs))), jobs):
+            if r[1] == 'unknown': hard.append(r[0])
+            res[r[0]] = r
     else:
         for i in range(len(vcs)):
             r = _solve(i, FAST_RLIMIT)
@@ -83,9 +104,7 @@ def discharge(vcs, jobs=None):
         if len(hard) == 1 or jobs == 1:
             for i in hard: res[i] = _solve(i)
         else:
-            ctx = mp.get_context('fork')
-            with ctx.Pool(min(jobs, len(hard))) as pool:
-                for r in pool.map(_solve, hard, chunksize=1): res[r[0]] = (r[0], r[1], r[2] + res[r[0]][2], r[3])
+            for r in _pool_map(_solve, hard, jobs): res[r[0]] = (r[0], r[1], r[2] + res[r[0]][2], r[3])
     if os.environ.get('PYVC_DEBUG'): print('discharge: pass1 %.1fs (%d VCs), pass2 %.1fs (%d VCs)' % (t1 - t0, len(vcs), time.time() - t1, len(hard)))
     for i, (_, r, t, m) in res.items():
         vcs[i].result = r; vcs[i].time = t; vcs[i].model = m
